@@ -20,7 +20,7 @@ RULE = ('base cases = C01 generator (well-formed flat machines, non-raising env,
         '(handlers/finalize) or later calls exist (survivor continues); distinct by case hash.')
 ASSUMPTIONS = ['exactly one callback raises per case (the quantifier of C04); nested triggers from callbacks are covered by C05',
                'async classes are checked by C07/C09 (gathered stages differ inside a stage)']
-THEOREMS = ['C04_crash_point', 'C04_crash_while_handling', 'C04_crash_ignored_invalid', 'C04_hsm_crash_point', 'C04_hsm_crash_finalize']
+THEOREMS = ['C04_crash_point', 'C04_crash_while_handling', 'C04_crash_ignored_invalid', 'C04_hsm_crash_point', 'C04_hsm_crash_finalize', 'C04_hsm_survivor_good']
 CLASSES = ['Machine', 'LockedMachine', 'HierarchicalMachine', 'LockedHierarchicalMachine']
 
 
